@@ -445,10 +445,9 @@ class G:
             self.emit("isect %s %s" % (e0, e1))
         # operands that TOUCH: the smallest value of one chunk is the largest value of the other's; the receiver grown by single
         # insertions (its slice has spare capacity), a clone of it (exact capacity) and an edited one
-        for _ in range(2):
+        for n1, n2 in [(3, 1), (50, 4), (100, 20), (600, 300)]:
             k = self.key()
             base = k * CH
-            n1, n2 = r.choice([3, 50, 100, 600]), r.choice([1, 4, 50, 300])
             lo = sorted(r.sample(range(0, 30000), n1))
             hi = sorted(r.sample(range(lo[-1] + 1, 65536), n2))
             for op in ("ior", "ixor", "iand", "iandnot"):
